@@ -175,19 +175,21 @@ impl Check for C03 {
 
     fn budget(&self, tier: &str) -> u64 { if tier == "thorough" { 40_000 } else { 4_000 } }
 
-    fn generate(&self, seed: u64, _tier: &str, env: &Env) -> Trace {
+    fn generate(&self, seed: u64, tier: &str, env: &Env) -> Trace {
         let mut r = Rng::new(seed);
+        // thorough tier: half of the runs are three times as long (deeper histories)
+        let dm: u64 = if tier == "thorough" && seed % 2 == 0 { 3 } else { 1 };
         let g = SemGen::new(&env.data);
         let mut t = base_instant(&mut r, &env.host_rule);
         let faults = !r.chance(1, 5);
-        let k = 1 + r.usize(3);
+        let k = 1 + r.usize(if dm > 1 { 5 } else { 3 });
         let np = 3 + r.usize(4);
         let shared_pool = g.name_pool(&mut r, np);
         struct Cl { session: bool, live: bool, prog: Prog, steps: u64, history: Vec<Line> }
         let mut cls: Vec<Cl> = (0..k).map(|i| {
             let pool = if r.chance(1, 2) { shared_pool.clone() } else { let n = 3 + r.usize(3); g.name_pool(&mut r, n) };
             let n = pool.len();
-            Cl { session: i > 0 || r.chance(2, 3), live: false, prog: Prog { pool, kinds: vec![None; n] }, steps: 3 + r.below(8), history: vec![] }
+            Cl { session: i > 0 || r.chance(2, 3), live: false, prog: Prog { pool, kinds: vec![None; n] }, steps: (3 + r.below(8)) * dm, history: vec![] }
         }).collect();
         let max_chunk = *r.pick(&[1usize, 3, 6]);
         let mut events = Vec::new();
